@@ -234,11 +234,18 @@ impl UnifiedDiff {
                         lines
                             .iter()
                             .map(|(i, l)| {
-                                // output may be arbitrary bytes, not necessarily UTF-8
-                                (
-                                    *i,
-                                    String::from_utf8_lossy((l as &[u8]).trim_newlines()).to_string(),
-                                )
+                                // output may be arbitrary bytes, not necessarily UTF-8:
+                                // what is no printable text is written as the escaped
+                                // expectation of the line, as the pretty renderer and
+                                // `update` write it
+                                let bytes: &[u8] = l;
+                                let content = bytes.trim_newlines();
+                                let text = if outcome.escaping.has_unprintable(content) {
+                                    outcome.escaping.escaped_expectation(content)
+                                } else {
+                                    String::from_utf8_lossy(content).to_string()
+                                };
+                                (*i, text)
                             })
                             .collect::<Vec<_>>(),
                     );
